@@ -63,6 +63,9 @@ def check_pair(f_ag, x, xa, y0a, vseed, sample, bucket, key, labels=()):
     if t1.shape != y0a.shape or r1.shape != xa.shape:
         return fail("wrong_shape", f"tangent {t1.shape} for output {y0a.shape}; cotangent {r1.shape} for argument {xa.shape}",
                     bucket("wrong_shape"), sample=sample)
+    if (not xc and any(a_.dtype.kind == "c" for a_ in (r1, r2, r12))) or (not yc and any(a_.dtype.kind == "c" for a_ in (t1, t2, t12))):
+        # the pairing <., .> is between a space and itself: a complex cotangent for a real argument (or tangent for a real output) is outside it
+        return fail("wrong_kind", "a cotangent for a real argument (or a tangent for a real output) is complex", bucket("wrong_kind"), sample=sample)
     fin_t = all(onp.all(onp.isfinite(a_)) for a_ in (t1, t2, t12))
     fin_r = all(onp.all(onp.isfinite(a_)) for a_ in (r1, r2, r12))
     if fin_t != fin_r:
